@@ -262,6 +262,8 @@ def evaluate(prop, cases, outs, profiles):
                     findings.append(Finding("violation", prop, c, k, narrow(cmd, j), prof, s, i, "element %d of %s" % (j, cmd[:60])))
                 else:
                     findings.append(Finding("violation", prop, c, k, cmd, prof, spec, impl))
+            if cmd == "Q codes" and prof != profiles[0]:
+                continue  # every process draws its own tie order; the model was given the first profile's table
             if not model_matches(model, impl, prof):
                 if "," in model or "," in impl:
                     j, m, i = first_diff(model, impl, lambda a, b: model_matches(a, b, prof))
@@ -403,13 +405,33 @@ def run_cases(prop, cases, profiles, binaries, model_bin, wdir, tag=""):
             mlines.append("CASE " + c.id)
             mlines += (c.lines if c.model else ["# skipped"] * 0 + ["SKIP"] * len(c.lines))
         # shard the model run over cores
-        outs["model"] = run_model_sharded(model_bin, cases, wdir, tag)
+        outs["model"] = run_model_sharded(model_bin, cases, wdir, tag, impl_flat=outs[profiles[0]])
     log("ran %d cases: impl+spec %.1fs, model %.1fs" % (len(cases), t1 - t0, time.time() - t1))
     return outs
 
 
-def run_model_sharded(model_bin, cases, wdir, tag, shards=16):
+def run_model_sharded(model_bin, cases, wdir, tag, shards=16, impl_flat=None):
     import concurrent.futures
+    # Huffman-shaped trees: the code table the implementation picked (it depends on a randomly
+    # seeded hash map) is handed to the model on the `Q codes` line; the model re-derives it
+    # with its own craft_wm_codes (compared on that line) and builds the tree from it
+    start = {}
+    pos = 0
+    for i, c in enumerate(cases):
+        start[i] = pos
+        pos += 1 + len(c.lines)
+
+    def model_lines(i):
+        c = cases[i]
+        out = []
+        for k, l in enumerate(c.lines):
+            if l == "Q codes" and impl_flat is not None:
+                a = impl_flat[start[i] + 1 + k]
+                out.append("Q codes " + a if a.startswith("V") else l)
+            else:
+                out.append(l)
+        return out
+
     groups = [[] for _ in range(shards)]
     # greedy balance by estimated cost
     order = sorted(range(len(cases)), key=lambda i: -cases[i].tags.get("cost", len(cases[i].lines)))
@@ -425,7 +447,7 @@ def run_model_sharded(model_bin, cases, wdir, tag, shards=16):
         for i in groups[g]:
             c = cases[i]
             ls.append("CASE " + c.id)
-            ls += c.lines if c.model else ["SKIP"] * len(c.lines)
+            ls += model_lines(i) if c.model else ["SKIP"] * len(c.lines)
         if not ls:
             return g, []
         return g, run_lines(model_bin, [], ls, "%smodel_%d" % (tag, g), wdir, ulimit_stack=True)
